@@ -129,27 +129,16 @@ theorem consFresh_of_user (κ : Kind) (anc : Nat) (r : Rel) (P : Poly) (lam : Ra
     obtain ⟨h1, h2⟩ := pcbo_delta_ok anc r (constructB P) lam lt b (fun a => varsIn_constructB' (hPb a))
     exact ⟨h1, fun kv hkv => varsIn_dictOrder h2 kv hkv⟩
 
-theorem fresh_of_user (op : Op) (h : op.User) : op.Fresh := by
+theorem fresh_of_userAt (κ : Kind) (op : Op) (h : op.UserAt κ) : op.Fresh := by
   cases op with
-  | cons r P lam lt lo hi => exact fun κ anc => consFresh_of_user κ anc r P lam lt (lo, hi) h
-  | setitem k v => trivial
-  | augitem k a d => trivial
-  | iaddD q => trivial
-  | isubD q => trivial
-  | iaddC c => trivial
-  | isubC c => trivial
-  | imulD q => trivial
-  | imulC c => trivial
-  | idivC c => trivial
-  | ipow e => trivial
-  | update q => trivial
-  | clear => trivial
-  | refresh => trivial
-  | copy => trivial
+  | cons r P lam lt lo hi => exact fun κ' anc => consFresh_of_user κ' anc r P lam lt (lo, hi) h
+  | _ => trivial
 
-/-- I4 along every history of user edits, whenever `*=` dict / `**=` keep the counter (D2 repair) -/
-theorem run_I4_user {fx : Fix} (hfx : fx.d2 = true) (κ : Kind) (ops : List Op) (hu : ∀ op ∈ ops, op.User) :
-    I4 (run fx κ ops) :=
-  run_I4 κ ops (fun _ _ => Or.inl hfx) hu (fun op h => fresh_of_user op (hu op h))
+theorem fresh_of_user (op : Op) (h : op.User) : op.Fresh := fresh_of_userAt .pubo op (userAt_of_user _ op h)
+
+/-- the class is kept and I4 holds along every history of user edits of the code as it is now (all repairs on) -/
+theorem run_I4_user {fx : Fix} (h2 : fx.d2 = true) (hr : fx.dr = true) (h10 : fx.d10 = true) (κ : Kind)
+    (ops : List Op) (hu : ∀ op ∈ ops, op.UserAt κ) : (run fx κ ops).kind = κ ∧ I4 (run fx κ ops) :=
+  run_I4 κ ops (fun _ _ => ⟨Or.inl h2, Or.inl hr⟩) h10 hu (fun op h => fresh_of_userAt κ op (hu op h))
 
 end Qv.Book
